@@ -261,3 +261,34 @@ pub(crate) fn c05_mov_load() {
 pub(crate) fn c05_mov_store() {
     mov_probe_body(true);
 }
+
+// C20 on the addressing path: two machines that agree on every register the operand names (base,
+// index, destination) and differ elsewhere must compute the same LEA result, for every addressing class.
+// @harness id=c20_lea_twin props=C20 crash=C19 tier=quick timeout=1500 desc="two runs of LEA r32/r64, m over every 64-bit addressing class from machines equal on all named registers, arbitrary elsewhere"
+#[cfg_attr(kani, kani::proof)]
+#[cfg_attr(kani, kani::unwind(90))]
+#[cfg_attr(kani, kani::stub(alloc::fmt::format, crate::verif::util::stub_format))]
+#[cfg_attr(kani, kani::stub(<iced_x86::Register as std::fmt::Debug>::fmt, crate::verif::util::stub_register_fmt))]
+#[cfg_attr(kani, kani::stub(<iced_x86::Code as std::fmt::Debug>::fmt, crate::verif::util::stub_code_fmt))]
+#[cfg_attr(kani, kani::stub(<iced_x86::Mnemonic as std::fmt::Debug>::fmt, crate::verif::util::stub_mnemonic_fmt))]
+pub(crate) fn c20_lea_twin() {
+    let mut f = mov_load_fields();
+    let w32: bool = kani::any::<bool>();
+    f.code = if w32 { Code::Lea_r32_m } else { Code::Lea_r64_m };
+    f.r[0] = if w32 { Register::EDX } else { Register::RDX };
+    f.ip = kani::any::<u64>();
+    sym_mem_fields(&mut f, false);
+    let (mut a, pre_a) = mk_machine(&f, false, false, 0);
+    let (mut b, pre_b, written) = mk_twin(&f, Op::Lea, &pre_a, a.stack_top);
+    let ra = a.mnemonic_lea(rebuild(&f));
+    let rb = b.mnemonic_lea(rebuild(&f));
+    let pa = capture(&a, &pre_a);
+    let pb = capture(&b, &pre_b);
+    let bad = twin_diff(&ra, &rb, &a, &b, &pa, &pb, written);
+    vcheck!("C20|lea_all_classes|same_outcome", bad & T_OUTCOME == 0);
+    vcheck!("C20|lea_all_classes|written_registers_agree", bad & T_REGS == 0);
+    vcheck!("C20|lea_all_classes|flags_and_segments_agree", bad & T_FLAGS == 0);
+    vreach!("C20|lea_all_classes|reach_absolute", f.base == Register::None && f.index == Register::None && written != 0x1ffff);
+    std::mem::forget(a);
+    std::mem::forget(b);
+}
